@@ -185,6 +185,17 @@ func genC16(tier string, rng *rand.Rand, shard, nshards int, emit emitter) {
 	if tier == "thorough" {
 		count = 600000
 	}
+	// end to end through server.Serve: a panicking handler must end its own connection only, in every callback
+	// configuration (the scenarios and their oracle are those of C17)
+	for c := 0; c < 32; c++ {
+		if c%nshards != shard {
+			continue
+		}
+		cfg := fmt.Sprintf("%05b", c)
+		for _, t := range []string{"- c1;c2;p1.1;q2.2;c3;q3.3", "- c1;p1.4;c2;q2.6;d2", "- c1;c2;q1.1;p2.2;q1.3;p1.4;c3;q3.5;sh;j"} {
+			emit("srv " + cfg + " " + t)
+		}
+	}
 	i := 0
 	// every function code 1..127 once with each handler
 	for fc := 1; fc <= 255; fc++ {
